@@ -43,10 +43,9 @@ def generations (edges : List (P × P)) : Nat → List P → List (List P)
   | 0, _ => []
   | fuel + 1, live =>
     if live.isEmpty then []
-    else
-      let r := ready edges live
-      if r.isEmpty then []
-      else r :: generations edges fuel (live.filter (fun n => !r.contains n))
+    else if (ready edges live).isEmpty then []
+    else ready edges live ::
+      generations edges fuel (live.filter (fun n => !(ready edges live).contains n))
 
 /-- `nx.is_directed_acyclic_graph`: the layering consumes every node -/
 def isDag (g : G) : Bool :=
